@@ -10,7 +10,8 @@ from vlib.core import Infra
 
 LEVEL = "model_checking"
 
-HEADER = "package main\n\nimport frt\nimport slice\nimport dict\nimport buf\n\ntype Box<T> = {V: T}\n\n"
+HEADER = ("package main\n\nimport frt\nimport slice\nimport dict\nimport buf\n\npackage_info _ =\n  let extEmpty<T>: ()->[]T\n\n"
+          "type Box<T> = {V: T}\n\ntype Res<T> =\n| Succ of T\n| Fail\n\nlet ident x =\n  x\n\n")
 
 
 def txt(toks):
@@ -18,7 +19,8 @@ def txt(toks):
 
 
 def positions(term):
-    ps = ["param", "field", "payload", "targ"]
+    # explicit type arguments: of a package-qualified function, a generic union case, a package_info function, a function of the file
+    ps = ["param", "field", "payload", "targ", "targcase", "targext", "targfn"]
     if term[0] == "func":
         ps.append("pkginfo")
     return ps
@@ -34,6 +36,12 @@ def render(k, term, toks, pos):
         return "type U%d =\n| C%d of %s\n| D%d\n\n" % (k, k, t, k)
     if pos == "targ":
         return "let t%d () =\n  slice.New<%s> ()\n\n" % (k, t)
+    if pos == "targcase":
+        return "let t%d () =\n  Fail<%s> ()\n\n" % (k, t)
+    if pos == "targext":
+        return "let t%d () =\n  extEmpty<%s> ()\n\n" % (k, t)
+    if pos == "targfn":
+        return "let t%d (v: %s) =\n  ident<%s> v\n\n" % (k, t, t)
     if pos == "pkginfo":
         n = len(term[1])
         if term[1][0][0] == "unit":
@@ -59,7 +67,7 @@ def extract(k, term, pos, info):
     if pos == "payload":
         s = structs.get("U%d_C%d" % (k, k))
         return nospace(s[0][1]) if s and len(s) == 1 and s[0][0] == "Value" else None
-    if pos == "targ":
+    if pos in ("targ", "targcase", "targext", "targfn"):
         f = funcs.get("t%d" % k)
         return nospace(f["targs"][0]) if f and len(f["targs"]) == 1 else None
     if pos == "pkginfo":
@@ -145,7 +153,8 @@ def run(ctx):
                 "function types with 1-2 arguments incl. unit argument/result, Box<T>, dict.Dict<K,V>; 3-tuples over 3 bases), depth 2 over "
                 "int/string with one deep component per constructor (thorough: every depth <= 1 term in every position, 86 k terms), and 5 hand-picked depth 3 terms; each printed with minimal and with "
                 "redundant parentheses, in each applicable position (parameter annotation, record field, union payload, explicit type "
-                "argument, package_info signature for function types). distinct = distinct (term, printer, position); non-trivial = "
+                "argument of slice.New / of a generic union case / of a package_info function / of a generic function of the file, "
+                "package_info signature for function types). distinct = distinct (term, printer, position); non-trivial = "
                 "depth >= 2 (counted separately in the evidence: depth >= 1)")
     sd = ctx.spec_dir()
     slicecheck.write_cfg(ctx, "FoTypeExprCases_run.cfg", "CONSTANTS\n  Depth2 = TRUE\n  Full2 = %s\n  OutFile = \"type_cases.ndjson\"\nINIT Init\nNEXT Next\n" % ("TRUE" if ctx.tier == "thorough" else "FALSE"))
